@@ -148,6 +148,39 @@ def _read_sites(body, operand, adt, field, seen=None):
     return out
 
 
+def _copy_root(body, operand):
+    """the local that `operand` is a plain copy of: whole-local copies/moves followed backwards while the copied local has
+    that copy as its only definition; None for constants and projected places"""
+    if operand[0] not in ('c', 'm') or operand[1][1]:
+        return None
+    loc = operand[1][0]
+    seen = set()
+    while loc not in seen:
+        seen.add(loc)
+        defs = body.defs_of(loc)
+        if len(defs) == 1 and defs[0][0] == 'stmt' and defs[0][3][0] == 'use' and defs[0][3][1][0] in ('c', 'm') and not defs[0][3][1][1][1]:
+            loc = defs[0][3][1][1][0]
+        else:
+            break
+    return loc
+
+
+def _same_value_as_store(body, operand, stores):
+    """the store among `stores` (plain `field = local` assignments in `body`) that writes the very value `operand` carries:
+    both are copies of one local that is defined exactly once, at a site that is not on a cycle (so it is one evaluation,
+    `let g = counter + 1; counter = g; f(g)`), or None"""
+    root = _copy_root(body, operand)
+    if root is None:
+        return None
+    defs = body.defs_of(root)
+    if len(defs) != 1 or defs[0][0] not in ('stmt', 'call') or defs[0][1] in body.reachable_strict(defs[0][1]):
+        return None
+    for w in stores:
+        if w.kind == 'assign' and w.rv and w.rv[0] == 'use' and _copy_root(body, w.rv[1]) == root:
+            return w
+    return None
+
+
 def _path_generation(ctx):
     """PathData::remove_in_flight attributes a packet to a path by `packet.path_generation == self.generation` (checked by
     remove_only_on_matching_generation). That is an identification only if no two paths of a connection ever carry the same
@@ -225,7 +258,21 @@ def _path_generation(ctx):
         here = [w for w in incs if w.body.id == b.id]
         inc_bbs = {w.bb for w in here}
         why = ''
-        if not _is_field(g, 'path_counter') or g[1][0] != 'param':
+        # the counter value may also reach the constructor through the local it was stored from (`let g = path_counter + k;
+        # path_counter = g; new(.., g, ..)`): then the argument IS the value of the increment store `same`, which must
+        # dominate the call with no further store of the counter in between
+        same = _same_value_as_store(b, c.args[ai], here) if not _is_field(g, 'path_counter') else None
+        if same is not None:
+            if not ((same.bb == c.bb) or b.dominates(same.bb, c.bb)):
+                why = 'a path entry -> %s does not pass the store of the incremented counter whose value is handed to it' % short(c.f)
+            for x in here:
+                if not why and x is not same and ((x.bb == same.bb and x.idx > same.idx) or
+                                                  (x.bb != same.bb and x.bb in b.reachable_strict(same.bb) and c.bb in b.reachable_from(x.bb))):
+                    why = 'path_counter is stored again (%s) between the increment whose value is passed and %s' % (x.where(), short(c.f))
+            for x in calls:
+                if not why and x.body.id == b.id and x.bb in b.reachable_strict(c.bb, avoid=inc_bbs):
+                    why = 'a second path can be constructed (%s) without a further increment of path_counter' % x.where()
+        elif not _is_field(g, 'path_counter') or g[1][0] != 'param':
             why = 'the generation of the new path is not the connection-level counter path_counter but %s' % D.render(g)[:160]
         elif not here or (c.bb not in inc_bbs and path_avoiding(b, [0], [c.bb], inc_bbs) is not None):
             why = 'a path entry -> %s does not increment path_counter' % short(c.f)
@@ -790,7 +837,7 @@ def rule_e(ctx):
         vals = [d2.rvalue(w.rv, w.bb, w.idx, 0) if w.rv else d2.call_desc(w.call, 0) for w in ws]
         # the stored value IS max(.., self.min_cwnd): one argument of the max is exactly the field
         # (or, in the branch form of the floor, the field itself)
-        ok = bool(ws) and all(_bbr_floor_value(v) for v in vals)
+        ok = bool(ws) and all(_bbr_floor_value(v, _min_cwnd_alias(ctx, b, w.bb, w.idx)) for w, v in zip(ws, vals))
         ctx.check(ok, 'e', 'bbr_on_mtu_update_floor', b, b.where(), what, 'Bbr::on_mtu_update cwnd store lost its max(.., min_cwnd) floor')
     cmw = ctx.pfn('bbr::calculate_min_window')
     rd = ret_descs(F, cmw)
@@ -822,17 +869,42 @@ def _is_min_call(d):
     return d[0] == 'call' and (d[1] in MIN_CALLS or D._trait_form(d[1]) in MIN_CALLS)
 
 
-def _bbr_floor_value(v):
-    """v >= self.min_cwnd by construction: the field itself, max(..) with such an operand, min(..) of such operands only"""
+def _bbr_floor_value(v, alias=()):
+    """v >= self.min_cwnd by construction: the field itself (or a value in `alias`: the very value a dominating store has
+    just put into the field, see _min_cwnd_alias), max(..) with such an operand, min(..) of such operands only"""
     if v[0] == 'phi':
-        return bool(v[1]) and all(_bbr_floor_value(x) for x in v[1])
-    if _is_field(v, 'min_cwnd'):
+        return bool(v[1]) and all(_bbr_floor_value(x, alias) for x in v[1])
+    if _is_field(v, 'min_cwnd') or v in alias:
         return True
     if _is_max_call(v):
-        return any(_bbr_floor_value(a) for a in v[3])
+        return any(_bbr_floor_value(a, alias) for a in v[3])
     if _is_min_call(v):
-        return bool(v[3]) and all(_bbr_floor_value(a) for a in v[3])
+        return bool(v[3]) and all(_bbr_floor_value(a, alias) for a in v[3])
     return False
+
+
+def _min_cwnd_alias(ctx, body, bb, idx):
+    """descriptors that denote, at statement (bb, idx) of `body`, the value self.min_cwnd holds there without being a read
+    of the field: `let floor = calculate_min_window(..); self.min_cwnd = floor; .. floor ..`. Exact conditions:
+      * the value is a call result (its descriptor carries the call site, so equal descriptors are the same evaluation,
+        not a re-computation of the same expression) and the call site is not on a cycle (evaluated once per invocation);
+      * a store `self.min_cwnd = <that value>` in `body` dominates (bb, idx);
+      * that store is the only write of Bbr.min_cwnd outside the constructors (no other store in `body` can intervene and
+        no callee can change the field behind the local)."""
+    F = ctx.facts
+    ws = [w for w in field_writes(F, 'Bbr', 'min_cwnd', crate='quinn_proto', include_borrows=True) if w.body.name not in CTORS]
+    if len(ws) != 1 or ws[0].body.id != body.id or ws[0].kind not in ('assign', 'callresult'):
+        return ()
+    w = ws[0]
+    if not ((w.bb == bb and w.idx < idx) or (w.bb != bb and body.dominates(w.bb, bb))):
+        return ()
+    vs = [v for x, v in store_values(ctx, 'Bbr', 'min_cwnd') if x.body.id == body.id and x.bb == w.bb and x.idx == w.idx]
+    if len(vs) != 1:
+        return ()
+    v = vs[0]
+    if v[0] != 'call' or len(v) < 5 or not isinstance(v[4], int) or v[4] in body.reachable_strict(v[4]):
+        return ()
+    return (v,)
 
 
 def _bbr_reported(a):
@@ -875,7 +947,10 @@ def _bbr_recovery_window(ctx):
     for br in branches(F, crw):
         for truth in (True, False):
             rel = relation_on(br.desc, truth)
-            if rel and rel[0] == 'Lt' and _is_field(rel[1], 'recovery_window') and _is_field(rel[2], 'min_cwnd'):
+            # the bound of the test is min_cwnd or any value that IS >= min_cwnd by construction (`let floor =
+            # self.min_cwnd.max(x); if recovery_window < floor { recovery_window = floor }`): on the other edge
+            # recovery_window >= floor >= min_cwnd
+            if rel and rel[0] == 'Lt' and _is_field(rel[1], 'recovery_window') and _bbr_floor_value(rel[2]):
                 t = br.target(1 if truth else 0)
                 if path_avoiding(crw, [t], crw.return_blocks(), fstores) is None:
                     floor_tests.add(br.bb)
@@ -904,7 +979,8 @@ def _bbr_recovery_window(ctx):
               'calculate_recovery_window can return while in recovery without storing recovery_window (the 0 sentinel / a stale value stays readable)')
     # unfloored stores elsewhere (the `0 = unset` marker written on entering recovery) and every change of recovery_state
     # (the switch that makes window() read recovery_window) are followed by calculate_recovery_window in every caller
-    sites = [(w, 'recovery_window = ' + D.render(v)[:80]) for w, v in outside if not _bbr_floor_value(v)]
+    sites = [(w, 'recovery_window = ' + D.render(v)[:80]) for w, v in outside
+             if not _bbr_floor_value(v, _min_cwnd_alias(ctx, w.body, w.bb, w.idx))]
     sites += [(w, 'recovery_state store') for w in field_writes(F, 'Bbr', 'recovery_state', crate='quinn_proto', include_borrows=True)
               if w.body.name not in ('new', 'clone', 'clone_box', 'build')]
     nrw = 0
@@ -984,7 +1060,8 @@ def _bbr_min_cwnd_change(ctx):
         rets = [x for x in b.return_blocks() if x in b.live_blocks()]
         for field, inst, cond in (('cwnd', 'bbr_min_cwnd_change_refloors_cwnd', False),
                                   ('recovery_window', 'bbr_min_cwnd_change_refloors_recovery_window', True)):
-            fl = [x for x, v in store_values(ctx, 'Bbr', field) if x.body.id == b.id and _bbr_floor_value(v)]
+            fl = [x for x, v in store_values(ctx, 'Bbr', field) if x.body.id == b.id and
+                  _bbr_floor_value(v, _min_cwnd_alias(ctx, b, x.bb, x.idx))]
             if any(x.bb == w.bb and x.idx > w.idx for x in fl):
                 ctx.ok('e', inst, r, w.where(), '%s re-floored right after the min_cwnd store' % field)
                 continue
@@ -993,7 +1070,8 @@ def _bbr_min_cwnd_change(ctx):
             for br in branches(F, b):
                 for truth in (True, False):
                     rel = relation_on(br.desc, truth)
-                    if rel and rel[0] == 'Le' and _is_field(rel[1], 'min_cwnd') and _is_field(rel[2], field):
+                    if rel and rel[0] == 'Le' and _is_field(rel[2], field) and \
+                            (_is_field(rel[1], 'min_cwnd') or rel[1] in _min_cwnd_alias(ctx, b, br.bb, term_idx(b, br.bb))):
                         skip.add((br.bb, br.target(1 if truth else 0)))
             reach = b.reachable_strict(w.bb, avoid=done, avoid_edges=skip)
             leak = [x for x in rets if x in reach]
